@@ -1728,6 +1728,12 @@ class SequenceOfAndSetOfBase(base.ConstructedAsn1Type):
             yield self.getComponentByPosition(idx)
 
     def _cloneComponentValues(self, myClone, cloneValueFlag):
+        if self._componentValues is noValue:
+            return
+
+        # an empty value is still a value
+        myClone.clear()
+
         for idx, componentValue in self._componentValues.items():
             if componentValue is not noValue:
                 if isinstance(componentValue, base.ConstructedAsn1Type):
@@ -2310,6 +2316,9 @@ class SequenceAndSetBase(base.ConstructedAsn1Type):
     def _cloneComponentValues(self, myClone, cloneValueFlag):
         if self._componentValues is noValue:
             return
+
+        # an empty value is still a value
+        myClone.clear()
 
         for idx, componentValue in enumerate(self._componentValues):
             if componentValue is not noValue:
